@@ -184,19 +184,82 @@ Qed.
 Lemma no_deprecated_update (k1 k2 : kwargs) : no_deprecated k1 -> no_deprecated k2 -> no_deprecated (kw_update k1 k2).
 Proof. intros H1 H2 k Hk Hin. apply keys_update in Hin. destruct Hin; [eapply H1|eapply H2]; eauto. Qed.
 
-(* partial application composes like dict update *)
+Lemma kw_get_some_in (k : key) (kw : kwargs) (v : V) : kw_get k kw = Some v -> In k (keys kw).
+Proof.
+  induction kw as [|[x y] r IH]; cbn; [discriminate|].
+  destruct (String.eqb k x) eqn:E; [apply String.eqb_eq in E; auto|]. intros H. right. apply IH. exact H.
+Qed.
+Lemma kw_get_none_notin (k : key) (kw : kwargs) : kw_get k kw = None -> ~ In k (keys kw).
+Proof. intros H Hin. destruct (kw_get_in k kw Hin) as [v E]. congruence. Qed.
+
+(* a value that the update overrides anyway does not matter *)
+Lemma kw_update_set_overridden (k2 : kwargs) : forall (X : kwargs) (k : key) (c : V),
+  In k (keys X) -> In k (keys k2) -> kw_update (kw_set k c X) k2 = kw_update X k2.
+Proof.
+  induction k2 as [|[a b] k2 IH]; intros X k c HX H2; [contradiction|].
+  rewrite !kw_update_cons. destruct (String.eqb a k) eqn:E.
+  - apply String.eqb_eq in E. subst a. rewrite kw_set_set. reflexivity.
+  - assert (Hne : a <> k) by (intros ->; rewrite String.eqb_refl in E; discriminate).
+    destruct H2 as [H2|H2]; [cbn in H2; congruence|].
+    rewrite <- kw_set_comm by (auto; congruence). apply IH; [apply keys_set; right; assumption|assumption].
+Qed.
+
+Lemma keep_seed_compose (kw0 k1 k2 : kwargs) :
+  NoDup (keys k1) -> NoDup (keys k2) ->
+  (forall v, kw_get "seed"%string k2 = Some v -> is_none v = false) ->
+  let K1 := keep_seed is_none kw0 (kw_update kw0 k1) in
+  keep_seed is_none K1 (kw_update K1 k2) = keep_seed is_none kw0 (kw_update kw0 (kw_update k1 k2)).
+Proof.
+  intros N1 N2 Hs K1. rewrite (kw_update_assoc k2 kw0 k1 N1). set (X := kw_update kw0 k1) in *.
+  unfold keep_seed at 1 2. rewrite !kw_get_update by assumption.
+  destruct (kw_get "seed"%string k2) as [v|] eqn:E2.
+  - cbn [not_none]. rewrite (Hs v eq_refl).
+    unfold K1, keep_seed. destruct (not_none is_none (kw_get "seed"%string X)) eqn:EX; [reflexivity|].
+    destruct (not_none is_none (kw_get "seed"%string kw0)) as [c|] eqn:E0; [|reflexivity].
+    apply kw_update_set_overridden; [|eapply kw_get_some_in; eassumption].
+    apply keys_update. left. unfold not_none in E0. destruct (kw_get "seed"%string kw0) eqn:G; [|discriminate].
+    eapply kw_get_some_in; eassumption.
+  - destruct (not_none is_none (kw_get "seed"%string K1)) eqn:EK; [|].
+    + unfold K1, keep_seed in *.
+      destruct (not_none is_none (kw_get "seed"%string X)) eqn:EX; [reflexivity|].
+      destruct (not_none is_none (kw_get "seed"%string kw0)) as [c|] eqn:E0; [|reflexivity].
+      symmetry. apply kw_set_update_fresh; [|apply kw_get_none_notin; assumption].
+      apply keys_update. left. unfold not_none in E0. destruct (kw_get "seed"%string kw0) eqn:G; [|discriminate].
+      eapply kw_get_some_in; eassumption.
+    + unfold K1, keep_seed in *.
+      destruct (not_none is_none (kw_get "seed"%string X)) eqn:EX; [congruence|].
+      destruct (not_none is_none (kw_get "seed"%string kw0)) as [c|] eqn:E0; [|reflexivity].
+      symmetry. apply kw_set_update_fresh; [|apply kw_get_none_notin; assumption].
+      apply keys_update. left. unfold not_none in E0. destruct (kw_get "seed"%string kw0) eqn:G; [|discriminate].
+      eapply kw_get_some_in; eassumption.
+Qed.
+
+Lemma keep_seed_restores (old new : kwargs) (c : V) :
+  not_none is_none (kw_get "seed"%string old) = Some c -> not_none is_none (kw_get "seed"%string new) = None ->
+  kw_get "seed"%string (keep_seed is_none old new) = Some c.
+Proof. intros Ho Hn. unfold keep_seed. rewrite Hn, Ho, kw_get_set, String.eqb_refl. reflexivity. Qed.
+
+Lemma keep_seed_nonempty (old new : kwargs) : new <> [] -> keep_seed is_none old new <> [].
+Proof.
+  intros Hn. unfold keep_seed. destruct (not_none is_none (kw_get "seed"%string new)); [assumption|].
+  destruct (not_none is_none (kw_get "seed"%string old)); [|assumption].
+  destruct new as [|[x y] r]; [contradiction|]. cbn [kw_set]. destruct (String.eqb _ x); discriminate.
+Qed.
+
+(* partial application composes like dict update (a later seed=None excepted: it does not erase a curried seed) *)
 Lemma call_compose (i i1 : initializer V) (k1 k2 : kwargs) (shape : list V) :
   NoDup (keys k1) -> NoDup (keys k2) -> no_deprecated k1 -> no_deprecated k2 ->
   (shape <> [] \/ k2 <> []) ->
+  (forall v, kw_get "seed"%string k2 = Some v -> is_none v = false) ->
   call is_none i [] k1 = RInit i1 ->
   call is_none i1 shape k2 = call is_none i shape (kw_update k1 k2).
 Proof.
-  intros N1 N2 D1 D2 Hne Hc.
+  intros N1 N2 D1 D2 Hne Hseed Hc.
   unfold call in Hc. rewrite (filter_deprecated_id k1 D1) in Hc.
   destruct (kw_has "sr"%string k1 && negb (i_autorize_sr i)) eqn:A1; [discriminate|].
   destruct (kw_has "input_scaling"%string k1 && negb (i_autorize_is i)) eqn:A2; [discriminate|].
   assert (Hk1 : k1 <> []) by (intros ->; discriminate).
-  assert (Hi1 : i1 = mkInit (i_func i) (kw_update (i_kwargs i) k1) (i_autorize_sr i) (i_autorize_is i) (i_autorize_rescaling i)).
+  assert (Hi1 : i1 = mkInit (i_func i) (keep_seed is_none (i_kwargs i) (kw_update (i_kwargs i) k1)) (i_autorize_sr i) (i_autorize_is i) (i_autorize_rescaling i)).
   { destruct k1; [contradiction|]. injection Hc as <-. reflexivity. }
   clear Hc. subst i1.
   unfold call. cbn [i_autorize_sr i_autorize_is i_autorize_rescaling i_func i_kwargs].
@@ -206,7 +269,7 @@ Proof.
   rewrite !andb_orb_distrib_l, A1, A2. cbn [orb].
   destruct (kw_has "sr"%string k2 && negb (i_autorize_sr i)); [reflexivity|].
   destruct (kw_has "input_scaling"%string k2 && negb (i_autorize_is i)); [reflexivity|].
-  rewrite <- (kw_update_assoc k2 (i_kwargs i) k1 N1).
+  rewrite (keep_seed_compose (i_kwargs i) k1 k2 N1 N2 Hseed).
   destruct shape as [|s0 shape]; [|reflexivity].
   destruct Hne as [Hne|Hne]; [contradiction|].
   destruct k2 as [|p2 k2'] eqn:E2; [contradiction|]. rewrite <- E2.
